@@ -1279,7 +1279,18 @@ fn diff_edge_attachments(
         let edge_id = EdgeId(*id);
         let before_val = before.edge_attachment(&edge_id);
         let after_val = after.edge_attachment(&edge_id);
-        if before_val == after_val {
+        // An edge whose source bucket changed is emitted by `diff_edges` as
+        // `DeleteEdge` + `UpsertEdge`. Replaying the delete clears the edge's
+        // β attachment (mini-cascade), so a surviving attachment must be
+        // re-asserted even though it is equal before and after.
+        let migrated_with_attachment = after_val.is_some()
+            && after_edges.get(id).is_some_and(|rec_after| {
+                before
+                    .edge_index
+                    .get(&edge_id)
+                    .is_some_and(|before_from| *before_from != rec_after.from)
+            });
+        if before_val == after_val && !migrated_with_attachment {
             continue;
         }
 
@@ -1287,7 +1298,7 @@ fn diff_edge_attachments(
             warp_id,
             local_id: edge_id,
         });
-        if skip_attachment_ops.contains(&key) {
+        if skip_attachment_ops.contains(&key) && !migrated_with_attachment {
             continue;
         }
         ops.push(WarpOp::SetAttachment {
